@@ -38,6 +38,48 @@ WfClauses(o) ==
   UNION {IF GLWellFormed(o.feats[f].vo) THEN {} ELSE {"C08_values_orders_ill_formed"} \cup GLIllFormed(o.feats[f].vo)
          : f \in DOMAIN o.feats}
 
+(* C03: groups of an ordered feature are runs of its natural order *)
+PosIn(seq, v) == IF \E i \in DOMAIN seq : seq[i] = v THEN CHOOSE i \in DOMAIN seq : seq[i] = v ELSE 0
+OrderClauses(e, O) ==
+  UNION {
+    LET ft == O.feats[f] IN
+    IF ~GLWellFormed(ft.vo) THEN {}
+    ELSE IF ft.kind = "quanti"
+    THEN LET all == GLValues(ft.vo) \ {NAN} IN
+         Flag(\A ldr \in GLLeaders(ft.vo) \ {NAN} :
+                 LET G == GLMembers(ft.vo, ldr) \ {NAN} IN
+                 /\ \A x \in G : x <= ldr                                  \* the leader is the upper bound
+                 /\ \A a, b \in G : \A x \in all : (a < x /\ x < b) => x \in G,     \* an interval of the boundaries
+              "C03_quanti_group_not_an_interval")
+         \cup Flag(\A i, j \in DOMAIN ft.vo.order :
+                     (i < j /\ ft.vo.order[i] # NAN /\ ft.vo.order[j] # NAN) => ft.vo.order[i] < ft.vo.order[j],
+                   "C03_quanti_groups_not_increasing")
+    ELSE IF e.ranking[f] = <<>> THEN {}
+    ELSE LET rk == e.ranking[f] IN
+         Flag(\A ldr \in GLLeaders(ft.vo) :
+                 LET G == {PosIn(rk, v) : v \in GLMembers(ft.vo, ldr)} \ {0} IN
+                 \A a, b \in G : \A x \in (a + 1)..(b - 1) : x \in G,
+              "C03_ordinal_group_not_contiguous")
+    : f \in DOMAIN O.feats}
+
+(* C03: with float labels transform is non-decreasing in a quantitative value / in an ordinal rank *)
+MonotoneClauses(e, P) ==
+  IF P.dtype # "float" THEN {}
+  ELSE UNION {
+    LET ft == P.feats[f]  cells == e.frame[f]  o == e.out[f] IN
+    IF Len(o) # Len(cells) THEN {}
+    ELSE IF ft.kind = "quanti"
+    THEN Flag(\A i, j \in DOMAIN cells :
+                 (cells[i] # NAN /\ cells[j] # NAN /\ cells[i] <= cells[j] /\ o[i][1] = 1 /\ o[j][1] = 1) => o[i][2] <= o[j][2],
+              "C03_transform_not_monotone")
+    ELSE IF e.ranking[f] = <<>> THEN {}
+    ELSE LET rk == e.ranking[f] IN
+         Flag(\A i, j \in DOMAIN cells :
+                 LET a == PosIn(rk, cells[i][1])  b == PosIn(rk, cells[j][1]) IN
+                 (a > 0 /\ b > 0 /\ a <= b /\ o[i][1] = 1 /\ o[j][1] = 1) => o[i][2] <= o[j][2],
+              "C03_ordinal_transform_not_monotone")
+    : f \in DOMAIN P.feats}
+
 (* fit: outcome and coherence of the fitted object (C08) *)
 JudgeFit(e, O) ==
   IF e.outcome = 2 THEN {"C08_internal_error"}
@@ -53,7 +95,8 @@ JudgeFit(e, O) ==
                   THEN (IF c[1] = NAN THEN HasNan(ft.vo) ELSE c[1] \in GLValues(ft.vo) \/ c[2] \in GLValues(ft.vo))
                   ELSE (IF c = NAN THEN HasNan(ft.vo) ELSE FirstLeaderGE(ft.vo, c).t = "grp"),
               "C08_training_value_not_covered")
-         \cup Flag(e.dropped_untouched, "C08_dropped_feature_modified"))
+         \cup Flag(e.dropped_untouched, "C08_dropped_feature_modified")
+         \cup OrderClauses(e, O))
 
 (* transform on object P (observed before), logged frame / outputs *)
 AllWf(P) == \A f \in DOMAIN P.feats : GLWellFormed(P.feats[f].vo)
@@ -74,7 +117,8 @@ JudgeTransform(e, P, O) ==
                    LET cells == e.frame[f]  o == e.out[f] IN
                      Flag(ColumnAgrees(P, f, cells, o), IF e.seen[f] THEN "C04_label" ELSE "C05_label")
                      \cup Flag(\A i \in DOMAIN o : o[i][1] # 4, "C05_raw_value_leaked")
-                   : f \in DOMAIN P.feats}))
+                   : f \in DOMAIN P.feats}
+                 \cup MonotoneClauses(e, P)))
 
 (* same frame transformed by another object earlier (event index e.same_as): equal results *)
 JudgeSame(e) ==
